@@ -158,9 +158,13 @@ pub fn match_bed_and_breakfast(
     all_transactions: &[GbpTransaction],
     cost_offsets: &[Decimal],
     future_consumption: &mut HashMap<usize, Decimal>,
-    same_day_reservations: &mut HashMap<(NaiveDate, String), Decimal>,
 ) -> Result<Vec<MatchResult>, CgtError> {
     let mut results = Vec::new();
+
+    // Same Day reservations are recomputed for every look-ahead pass: shares an
+    // acquisition date needs for its own disposals stay reserved for every earlier
+    // disposal, not only for the first one that looks at that date.
+    let mut same_day_reservations: HashMap<(NaiveDate, String), Decimal> = HashMap::new();
 
     let Operation::Sell {
         amount: sell_amount,
@@ -217,7 +221,7 @@ pub fn match_bed_and_breakfast(
                     *amount,
                     all_transactions,
                     future_consumption,
-                    same_day_reservations,
+                    &mut same_day_reservations,
                 );
                 if available_at_buy_time <= Decimal::ZERO {
                     continue;
